@@ -110,6 +110,8 @@ def judge(case):
     out = core.Outcome()
     if case["kind"] == "threads":
         return judge_threads(case)
+    if case["kind"] == "threads-cold":
+        return judge_threads_cold(case)
     snap0 = snapshot()
     hist = case["history"]  # list of (payload, kind)
     for i, (payload, kind) in enumerate(hist):
@@ -163,6 +165,23 @@ def judge_threads(case):
     _thread_oracle(res, ref, pre, out, case.get("name", ""))
     if snapshot() != snap0:
         out.bad("tables-modified", "library tables changed by a concurrent parse")
+    return out
+
+
+def judge_threads_cold(case):
+    """Replay one cold schedule (fork, threads, sequential parses) against child references."""
+    out = core.Outcome()
+    pa, pb = case["payloads"]
+    post = case["post"]
+    ref, _snaps = references([{"payload": p} for p in [pa, pb] + post])
+    res, _steps, pre, _n, after = sched.execute_cold(
+        lambda: [_mk_body(pa), _mk_body(pb)], case["choices"], case.get("gran", "line"),
+        post=lambda: [observe(p, "msg1") for p in [pa, pb] + post])
+    _thread_oracle(res, (ref[(pa, "msg1")], ref[(pb, "msg1")]), pre, out, case.get("name", ""))
+    want = [ref[(p, "msg1")] for p in [pa, pb] + post]
+    if list(after) != want:
+        out.bad("result-depends-on-history:after-concurrent-parses",
+                f"{case.get('name')}: sequential parses after the cold schedule differ from references")
     return out
 
 
@@ -232,6 +251,88 @@ def explore_threads(item):
     return st
 
 
+def cold_pairs():
+    def b(ident, shape=None, mode="fp"):
+        return R.build(ident, shape or {}, mode)[0]
+
+    return [
+        ("cold 1007(3)|1007(5) then 1007(8)", b("1007", {"DF029": 3}), b("1007", {"DF029": 5}),
+         [b("1007", {"DF029": 8})]),
+        ("cold 1059|1065 then 1059(3x3)", b("1059", {"DF387": 2, "DF379_01": 1, "DF379_02": 2}),
+         b("1065", {"DF387": 1, "DF379_01": 2}),
+         [b("1059", {"DF387": 3, "DF379_01": 3, "DF379_02": 3, "DF379_03": 3})]),
+        ("cold 1071|1121 then 1077", b("1071", {"DF394": (1 << 63) | (1 << 60), "DF395": 1 << 30, "DF396": 3}),
+         b("1121", {"DF394": 1 << 40, "DF395": (1 << 29) | (1 << 9), "DF396": 1}),
+         [b("1077", {"DF394": 7 << 50, "DF395": 3 << 20, "DF396": 0b111111})]),
+        ("cold 1005|1006 then 1033", b("1005"), b("1006"),
+         [b("1033", {"DF029": 4, "DF032": 3, "DF227": 2, "DF229": 1, "DF231": 5})]),
+    ]
+
+
+def cold_payloads():
+    out = []
+    for _n, pa, pb, post in cold_pairs():
+        out += [pa, pb] + post
+    return out
+
+
+def explore_threads_cold(item):
+    """
+    As explore_threads, but every schedule runs in a freshly forked child of this (cold)
+    process and is followed there by sequential parses: lazily initialised or lazily grown
+    library state is cold at the start of every schedule.
+    """
+    from mc.explore import Chooser  # pylint: disable=import-outside-toplevel
+
+    name, pa, pb, post, gran, bound, refs, part, parts = item
+    st = core.Stats()
+    steps_seen = set()
+
+    def body(ch):
+        res, steps, pre, npoints, after = sched.execute_cold(
+            lambda: [_mk_body(pa), _mk_body(pb)], ch.prefix, gran,
+            post=lambda: [observe(p, "msg1") for p in [pa, pb] + post] + [snapshot()])
+        ch.trace = [(2, ch.prefix[i] if i < len(ch.prefix) else 0, "pt") for i in range(npoints)]
+        return res, steps, pre, after
+
+    ref = (refs[pa], refs[pb])
+    want_after = [refs[p] for p in [pa, pb] + post]
+    # this part explores the schedules whose FIRST pre-emption position is in its residue class
+    # (part 0 also runs the schedule without pre-emption)
+    n0 = body(Chooser(()))[1][0]
+    roots = [(0,) * s + (1,) for s in range(part, n0, parts)]
+    if part == 0:
+        roots.insert(0, None)
+    runs = []
+    for root in roots:
+        if root is None:
+            runs.append(next(iter(explore(body, bound=0))))
+        else:
+            runs.extend(explore(body, bound=bound, root=root))
+    for choices, devs, (res, steps, pre, after) in runs:
+        out = core.Outcome()
+        _thread_oracle(res, ref, pre, out, name)
+        if after[:-1] != want_after:
+            k = next(i for i, (x, y) in enumerate(zip(after, want_after)) if x != y)
+            out.bad("result-depends-on-history:after-concurrent-parses",
+                    f"{name}: after a cold two-thread execution with pre-emptions at {list(pre)} the "
+                    f"sequential parse #{k} gives {str(after[k])[:80]} instead of {str(want_after[k])[:80]}")
+        if after[-1] != refs["snapshot"]:
+            out.bad("tables-modified", f"{name}: tables changed by a cold concurrent execution")
+        out.nontrivial = devs >= 1
+        out.transitions = sum(steps)
+        out.obs = core.h64(repr((name, gran, pre)))
+        out.extra[f"cold_schedules_{gran}_{devs}_preemptions"] = 1
+        steps_seen.add(steps)
+        st.add({"kind": "threads-cold", "name": name, "payloads": [pa, pb], "post": post,
+                "gran": gran, "choices": list(choices)}, out,
+               keep_sample=(devs == bound and len(st.samples) < 1))
+    # step counts may legitimately differ between cold schedules (lazy initialisation is done by
+    # whichever thread comes first), so they are recorded but not compared
+    st.extra["cold_distinct_step_profiles"] = len(steps_seen)
+    return st
+
+
 def _compress(choices):
     return list(choices)
 
@@ -295,6 +396,8 @@ def _steps2(pa, pb, gran="line"):
 def _work(item):
     if item[0] == "threads":
         return explore_threads(item[1])
+    if item[0] == "threads-cold":
+        return explore_threads_cold(item[1])
     st = core.Stats()
     _kind, cases_ = item
     snap0 = snapshot()
@@ -311,7 +414,7 @@ def run(tier, seed, t0):
     _SNAP0 = snapshot()
     if fresh_snapshot() != _SNAP0:
         raise core.Broken("table snapshot of this process differs from a fresh interpreter's")
-    ref, snaps = references(corp)
+    ref, snaps = references(corp + [{"payload": p} for p in cold_payloads()])
     _REF.update(ref)
     st = core.Stats()
     if snaps != {_SNAP0}:
@@ -360,10 +463,20 @@ def run(tier, seed, t0):
     for a, b, c in itertools.product(tri, repeat=3):
         cases_.append({"kind": "hist", "history": [(a["payload"], "msg1"), (b["payload"], "msg2"),
                                                    (c["payload"], "msg1")]})
-    core.check_deterministic(judge, cases_[len(cases_) // 2])
+    # cold two-thread explorations first: this process has parsed nothing so far, each work item
+    # gets a fresh fork of it (maxtasksperchild=1) and forks again for every schedule
+    crefs = {p: _REF[(p, "msg1")] for p in cold_payloads()}
+    crefs["snapshot"] = _SNAP0
+    cold = []
+    for name, pa, pb, post in cold_pairs():
+        for part in range(4):
+            cold.append(("threads-cold", (name + "/ab", pa, pb, post, "line", 1, crefs, part, 4)))
+            cold.append(("threads-cold", (name + "/ba", pb, pa, post, "line", 1, crefs, part, 4)))
+    st.merge(core.pmap(_work, cold, maxtasksperchild=1))
     work = [("hist", ch) for ch in core.chunks(cases_, 600)]
     work = [("threads", w) for w in plan_threads(tier)] + work
     st.merge(core.pmap(_work, work))
+    core.check_deterministic(judge, cases_[len(cases_) // 2])
     prefixes = set()
     for c in cases_:
         hk = tuple((core.h64(p), k) for p, k in c["history"])
